@@ -27,6 +27,10 @@ impl ElectionTimer {
         min: u64,
         max: u64,
     ) -> Duration {
+        #[cfg(feature = "__verif")]
+        if let Some(ms) = crate::verif_hooks::election_timeout(min, max) {
+            return Duration::from_millis(ms);
+        }
         let mut rng = rand::rng();
         let timeout = rng.random_range(min..max);
         Duration::from_millis(timeout)
